@@ -227,6 +227,9 @@ func (app *App) checkHAReplicasRunning(local *mysql.Node) (replicasRunning bool,
 func (app *App) stateFirstRun() appState {
 	if !app.dcs.WaitConnected(app.config.DcsWaitTimeout) {
 		if app.doesMaintenanceFileExist() {
+			// this instance will not come back to stateFirstRun: it leaves maintenance straight into
+			// stateManager or stateCandidate, which use the optimization module
+			app.initializeOptimizationModule()
 			return stateMaintenance
 		}
 		return stateFirstRun
